@@ -148,7 +148,7 @@ def prepare (st : State α) : State α :=
   if st.left.isEnded && st.right.isEnded && st.left.cacheFinished && st.right.cacheFinished
   then { st with left := st.left.reset, right := st.right.reset, firstMessage := true } else st
 
-/-- (5) binary.rs:252-293: receive from the side(s) that have not ended the iteration -/
+/-- (5) binary.rs:265-306: receive from the side(s) that have not ended the iteration -/
 def selectRecv (st : State α) : State α × Sel α :=
   if st.left.isEnded then recvRight st
   else if st.right.isEnded then recvLeft st
@@ -163,21 +163,29 @@ def selectRecv (st : State α) : State α × Sel α :=
     | false, true => recvLeft st
     | true, true => (st, .block)     -- `Err(Disconnected)`; unreachable (Start has terminated)
 
-/-- (3)-(5) binary.rs:237-293 -/
+def Sel.isBlock : Sel α → Bool
+  | .block => true
+  | _ => false
+
+/-- (3)-(5) binary.rs:237-306 -/
 def selectBody (st : State α) : State α × Sel α :=
-  -- (3) binary.rs:237-245: first message of the iteration with a cached side: ask the OTHER side.
-  --     NB `first_message` is cleared before the receive, also when the receive times out.
+  -- (3) binary.rs:237-249: first message of the iteration with a cached side: ask the OTHER side;
+  --     `first_message` stays set when that receive fails (times out).
+  --     (Before 14727d5 the flag was cleared before the receive, also on a timeout: finding F6b.)
   if st.firstMessage && (st.left.cached || st.right.cached) then
-    if st.left.cached then recvRight { st with firstMessage := false }
-    else recvLeft { st with firstMessage := false }
-  -- (4) binary.rs:246-251: replay the cache
-  else if st.left.cached && st.left.cacheFull && !st.left.cacheFinished then
+    let r := if st.left.cached then recvRight st else recvLeft st
+    ({ r.1 with firstMessage := r.2.isBlock }, r.2)
+  -- (4) binary.rs:250-264: replay the cache, unless the other side already started terminating
+  --     (before 6c83288 there was no condition on the other side's `missing_terminate`: finding F6)
+  else if st.left.cached && st.left.cacheFull && !st.left.cacheFinished
+      && st.right.missingTerm == st.right.instances then
     ({ st with left := st.left.nextCached.1 }, .replay true st.left.nextCached.2)
-  else if st.right.cached && st.right.cacheFull && !st.right.cacheFinished then
+  else if st.right.cached && st.right.cacheFull && !st.right.cacheFinished
+      && st.left.missingTerm == st.left.instances then
     ({ st with right := st.right.nextCached.1 }, .replay false st.right.nextCached.2)
   else selectRecv st
 
-/-- `select` (binary.rs:194-310). -/
+/-- `select` (binary.rs:194-323). -/
 def select (st : State α) : State α × Sel α :=
   -- (1) binary.rs:200-216: both sides terminated, the cached side's Terminates were never emitted
   if st.left.isTerminated && st.right.isTerminated && decide (numTerminates st > 0) then
